@@ -20,6 +20,7 @@ struct Op {
   int src = 0;       // stream kind for range arguments
   int fkind = 0;     // attached fault kind (F_NONE / F_ELEM / F_ALLOC)
   int fk = 0;        // fault index k within this operation
+  int self = 0;      // binary operations: the partner is the target itself (v = v, v = std::move(v), v.swap(v))
 };
 
 struct Plan {
@@ -52,7 +53,7 @@ inline std::string plan_to_text(const Plan &p, OpNameFn nameOf) {
   o << "\ncmp " << p.cmpMode << "\nkeydom " << p.keyDom << "\nnoreloc " << (p.noReloc ? 1 : 0) << "\n";
   for (const Op &op : p.ops) {
     o << "op " << op.id << ' ' << nameOf(op.kind) << " c=" << op.c << " d=" << op.d << " a=" << op.a << " b=" << op.b
-      << " n=" << op.n << " src=" << op.src << " fault=" << op.fkind << ':' << op.fk << "\n";
+      << " n=" << op.n << " src=" << op.src << " fault=" << op.fkind << ':' << op.fk << (op.self ? " self=1" : "") << "\n";
   }
   if (!p.expectKind.empty()) o << "expect " << p.expectKind << ' ' << p.expectProps << ' ' << p.expectHash << "\n";
   if (!p.note.empty()) o << "note " << p.note << "\n";
@@ -94,6 +95,7 @@ inline bool plan_from_text(const std::string &text, Plan &p, OpKindFn kindOf, st
         else if (k == "b") op.b = (unsigned)strtoul(v.c_str(), nullptr, 10);
         else if (k == "n") op.n = (unsigned)strtoul(v.c_str(), nullptr, 10);
         else if (k == "src") op.src = atoi(v.c_str());
+        else if (k == "self") op.self = atoi(v.c_str());
         else if (k == "fault") { op.fkind = atoi(v.c_str()); size_t c = v.find(':'); op.fk = c == std::string::npos ? 0 : atoi(v.c_str() + c + 1); }
       }
       p.ops.push_back(op);
